@@ -397,6 +397,7 @@ package wal
 //@ func (*WAL).Set
 //@   props C08 C14
 //@   requires w.metrics != nil && w.metaDB != nil
+//@   assigns g_set_len, g_set_le64
 //@   ensures[C14.set-closed] w.closed != 0 ==> result == types.ErrClosed
 //@   ghostset g_set_len = len(val)
 //@   ghostset g_set_le64 = ite(len(val) == 8, LE64(val, 0), 0)
@@ -405,6 +406,7 @@ package wal
 //@ func (*WAL).Get
 //@   props C08 C14
 //@   requires w.metrics != nil && w.metaDB != nil
+//@   assigns g_get_len, g_get_le64, g_under_err
 //@   ensures[C14.get-closed] w.closed != 0 ==> result1 == types.ErrClosed && result0 == nil
 //@   ghostset g_get_len = len(result0)
 //@   ghostset g_get_le64 = ite(len(result0) == 8, LE64(result0, 0), 0)
@@ -418,12 +420,12 @@ package wal
 //@ func (*WAL).SetUint64
 //@   props C08
 //@   requires w.metrics != nil && w.metaDB != nil
-//@   assigns *
+//@   assigns g_set_len, g_set_le64
 //@   ensures[C08.uint64-encoding] w.closed == 0 ==> g_set_len == 8 && uint64(g_set_le64) == val
 //@ func (*WAL).GetUint64
 //@   props C08
 //@   requires w.metrics != nil && w.metaDB != nil
-//@   assigns *
+//@   assigns g_get_len, g_get_le64, g_under_err
 //@   ensures[C08.uint64-decoding] result1 == nil && g_get_len == 8 ==> result0 == uint64(g_get_le64)
 //@   ensures[C08.uint64-unset-is-zero] g_under_err == nil && g_get_len == 0 ==> result1 == nil && result0 == 0
 //@   ensures[C08.uint64-bad-length] g_under_err == nil && g_get_len != 0 && g_get_len != 8 ==> result1 != nil
